@@ -207,6 +207,27 @@ theorem C37_level2 (r1 k : Int) (hr1 : 0 < r1) (hk : 0 < k) (data : List Raw) (n
   obtain ⟨t, _, rfl⟩ := List.mem_map.mp hp
   rfl
 
+/-! ### the two hypotheses of C37 are needed (both witnesses were run on the real code:
+      corpus/C37/outside-domain.ops) -/
+
+/-- values ≥ 0 is needed: with a negative value the aggregator's adjusted counter goes down
+    (5, then −3 booked as a reset: 5 + (−3) = 2), the reader takes that decrease inside the chunk
+    for another reset and returns 5 + 2 = 7 at t = 60, not the adjusted raw value 2. -/
+theorem C37_nonneg_needed :
+    (match downsampleRaw [(1, some 5), (60, some (-3))] 50 1 with
+      | some l1 => (applyResets (l1.map (·.counter))).1
+      | none => []) = [(1, 5), (49, 5), (60, 7)] ∧ adjAt [(1, 5), (60, -3)] 60 = 2 := by decide
+
+/-- the second resolution being a multiple of the first is needed: 50 → 70.  The raw sample at 65
+    is emitted by level 1 at its window end 99, which lies beyond the level-2 window end 69, so the
+    level-2 sample at 69 carries 1 although the adjusted raw counter at 69 is 4. -/
+theorem C37_multiple_needed :
+    (match downsampleRaw [(60, some 1), (65, some 4), (120, some 6)] 50 1 with
+      | some l1 => (match downsampleAggrLoop true l1 70 1 with
+        | .ok l2 => (applyResets (l2.map (·.counter))).1
+        | _ => [])
+      | none => []) = [(60, 1), (69, 1), (120, 6)] ∧ adjAt [(60, 1), (65, 4), (120, 6)] 69 = 4 := by decide
+
 /-- Regenerated obligations: reset detection in the aggregator and in the reader, and the
     `Seek(lastT + 1)` at a chunk switch. -/
 theorem C37_source_facts :
